@@ -35,6 +35,7 @@ import (
 	controller "github.com/attestantio/vouch/services/controller/standard"
 	nullmetrics "github.com/attestantio/vouch/services/metrics/null"
 	mockproposalpreparer "github.com/attestantio/vouch/services/proposalpreparer/mock"
+	"github.com/attestantio/vouch/services/scheduler"
 	"github.com/attestantio/vouch/services/synccommitteeaggregator"
 	mocksynccommitteeaggregator "github.com/attestantio/vouch/services/synccommitteeaggregator/mock"
 	"github.com/attestantio/vouch/services/synccommitteemessenger"
@@ -80,8 +81,19 @@ type Env struct {
 	Vals bool         `json:"vals"`
 }
 
+// Delay: while this op runs, the beacon node answers the duties request of kind Kind ("att" /
+// "prop": for epoch Key; "sync": for sync committee period Key) only after the chain has moved on
+// by Slots slots; every other request is answered at once.  By the end of the op the clock has
+// advanced by Slots slots whether or not the request was made.
+type Delay struct {
+	Kind  string `json:"kind"`
+	Key   uint64 `json:"key"`
+	Slots uint64 `json:"slots"`
+}
+
 // Op kinds: advance setenv start tick head fire schedatt schedprop schedsync refreshatt refreshprop refreshsync
 type Op struct {
+	Delay    *Delay `json:"delay,omitempty"`
 	K        string `json:"k"`
 	Slot     uint64 `json:"slot,omitempty"`
 	Epoch    uint64 `json:"epoch,omitempty"`
@@ -315,12 +327,72 @@ type world struct {
 	peekPay         []string // payload seen while peeking
 	headSlot        uint64   // what the node reports as head to proposeEarly
 	headErr         bool
+
+	// a slow beacon node: the matching request sleeps (fake time) until everything else the op
+	// started has finished, the chain time moves to delayTarget, then the answer is given
+	ct          *mocks.ChainTime
+	delay       *Delay
+	delayTarget uint64
+}
+
+// slowAnswer blocks a matching duties request like a busy beacon node does; it honours the
+// request's context.
+func (w *world) slowAnswer(ctx context.Context, kind string, key uint64) error {
+	w.mu.Lock()
+	d, target, ct := w.delay, w.delayTarget, w.ct
+	w.mu.Unlock()
+	if d == nil || ct == nil || d.Kind != kind || d.Key != key {
+		return nil
+	}
+	select {
+	case <-ctx.Done():
+		return ctx.Err()
+	case <-time.After(300 * time.Millisecond):
+	}
+	if uint64(ct.CurrentSlot()) < target {
+		ct.SetSlot(target)
+	}
+	return nil
+}
+
+// clockSched is the recording scheduler, noting for every accepted one-off job the chain time's
+// current slot at the moment it was set up.
+type clockSched struct {
+	*mocks.RecScheduler
+	ct     *mocks.ChainTime
+	mu     sync.Mutex
+	setups []string
+}
+
+func (s *clockSched) ScheduleJob(ctx context.Context, class string, name string, runtime time.Time, job scheduler.JobFunc) error {
+	err := s.RecScheduler.ScheduleJob(ctx, class, name, runtime, job)
+	if err == nil {
+		if _, ctor, num, ok := parseJob(name); ok {
+			at := uint64(s.ct.CurrentSlot())
+			s.mu.Lock()
+			s.setups = append(s.setups, Pair(App(ctor, N(num)), N(at)))
+			s.mu.Unlock()
+		}
+	}
+	return err
+}
+
+func (s *clockSched) drain() []string {
+	s.mu.Lock()
+	defer s.mu.Unlock()
+	res := s.setups
+	s.setups = nil
+	sort.Strings(res)
+	return res
 }
 
 func (w *world) setEnv(e Env) { w.mu.Lock(); w.env = e; w.mu.Unlock() }
 
 // attester duties provider
-func (w *world) AttesterDuties(_ context.Context, opts *api.AttesterDutiesOpts) (*api.Response[[]*apiv1.AttesterDuty], error) {
+func (w *world) AttesterDuties(ctx context.Context, opts *api.AttesterDutiesOpts) (*api.Response[[]*apiv1.AttesterDuty], error) {
+	if err := w.slowAnswer(ctx, "att", uint64(opts.Epoch)); err != nil {
+		return nil, err
+	}
 	w.mu.Lock()
 	defer w.mu.Unlock()
 	var res []*apiv1.AttesterDuty
@@ -336,7 +408,10 @@ func (w *world) AttesterDuties(_ context.Context, opts *api.AttesterDutiesOpts) 
 	return &api.Response[[]*apiv1.AttesterDuty]{Data: res, Metadata: map[string]any{}}, nil
 }
 
-func (w *world) ProposerDuties(_ context.Context, opts *api.ProposerDutiesOpts) (*api.Response[[]*apiv1.ProposerDuty], error) {
+func (w *world) ProposerDuties(ctx context.Context, opts *api.ProposerDutiesOpts) (*api.Response[[]*apiv1.ProposerDuty], error) {
+	if err := w.slowAnswer(ctx, "prop", uint64(opts.Epoch)); err != nil {
+		return nil, err
+	}
 	w.mu.Lock()
 	defer w.mu.Unlock()
 	var res []*apiv1.ProposerDuty
@@ -356,7 +431,10 @@ type syncProvider struct {
 	period uint64
 }
 
-func (s *syncProvider) SyncCommitteeDuties(_ context.Context, opts *api.SyncCommitteeDutiesOpts) (*api.Response[[]*apiv1.SyncCommitteeDuty], error) {
+func (s *syncProvider) SyncCommitteeDuties(ctx context.Context, opts *api.SyncCommitteeDutiesOpts) (*api.Response[[]*apiv1.SyncCommitteeDuty], error) {
+	if err := s.w.slowAnswer(ctx, "sync", uint64(opts.Epoch)/s.period); err != nil {
+		return nil, err
+	}
 	s.w.mu.Lock()
 	defer s.w.mu.Unlock()
 	var res []*apiv1.SyncCommitteeDuty
@@ -502,6 +580,7 @@ type ctl struct {
 	w     *world
 	ct    *mocks.ChainTime
 	sched *mocks.RecScheduler
+	cs    *clockSched
 	ev    *mocks.EventsProvider
 	svc   *controller.Service
 	tick  *controller.VerifEpochTickerData // hook-built instance only
@@ -533,6 +612,7 @@ func (c *ctl) spec() eth2client.SpecProvider {
 func (c *ctl) start(t *testing.T) {
 	c.sched = mocks.NewRecScheduler()
 	c.sched.RunInline = true // RunJobIfExists (fast track, propose early) really runs the job
+	c.cs = &clockSched{RecScheduler: c.sched, ct: c.ct}
 	c.ev = mocks.NewEventsProvider()
 	c.tick = nil
 	params := []controller.Parameter{
@@ -546,7 +626,7 @@ func (c *ctl) start(t *testing.T) {
 		controller.WithEventsProvider(c.ev),
 		controller.WithValidatingAccountsProvider(&accountsProvider{w: c.w}),
 		controller.WithProposalsPreparer(mockproposalpreparer.New()),
-		controller.WithScheduler(c.sched),
+		controller.WithScheduler(c.cs),
 		controller.WithAttester(&recAttester{w: c.w}),
 		controller.WithSyncCommitteeMessenger(&recMessenger{w: c.w}),
 		controller.WithSyncCommitteeSubscriber(mocksynccommitteesubscriber.New()),
@@ -575,12 +655,13 @@ func (c *ctl) start(t *testing.T) {
 func (c *ctl) hook() {
 	c.sched = mocks.NewRecScheduler()
 	c.sched.RunInline = true // RunJobIfExists (fast track, propose early) really runs the job
+	c.cs = &clockSched{RecScheduler: c.sched, ct: c.ct}
 	c.ev = mocks.NewEventsProvider()
 	deps := &controller.VerifDeps{
 		LogLevel:                    c.level,
 		Monitor:                     nullmetrics.New(),
 		ChainTime:                   c.ct,
-		Scheduler:                   c.sched,
+		Scheduler:                   c.cs,
 		ProposerDutiesProvider:      c.w,
 		AttesterDutiesProvider:      c.w,
 		SyncCommitteeDutiesProvider: &syncProvider{w: c.w, period: max(c.h.Period, 1)},
@@ -719,6 +800,20 @@ func (c *ctl) indices() []phase0.ValidatorIndex {
 
 func (c *ctl) apply(t *testing.T, op Op) {
 	ctx := context.Background()
+	if op.Delay != nil {
+		target := uint64(c.ct.CurrentSlot()) + op.Delay.Slots
+		c.w.mu.Lock()
+		c.w.delay, c.w.delayTarget = op.Delay, target
+		c.w.mu.Unlock()
+		defer func() {
+			c.w.mu.Lock()
+			c.w.delay = nil
+			c.w.mu.Unlock()
+			if uint64(c.ct.CurrentSlot()) < target {
+				c.ct.SetSlot(target)
+			}
+		}()
+	}
 	switch op.K {
 	case "advance":
 		c.ct.SetSlot(op.Slot)
@@ -822,8 +917,23 @@ func opTerm(op Op) string {
 	return "?"
 }
 
+func dopTerm(op Op) string {
+	d := None()
+	if op.Delay != nil {
+		kind := map[string]string{"att": "RAtt", "prop": "RProp", "sync": "RSync"}[op.Delay.Kind]
+		d = Some(Record("dl_kind", kind, "dl_key", N(op.Delay.Key), "dl_slots", N(op.Delay.Slots)))
+	}
+	return Pair(opTerm(op), d)
+}
+
 func runHist(t *testing.T, h *Hist, level zerolog.Level) (term string, nontrivial bool, obs map[string]any) {
-	var snaps []string
+	var snaps, clocks, setups []string
+	slow := false
+	for _, op := range h.Ops {
+		if op.Delay != nil {
+			slow = true
+		}
+	}
 	w := &world{env: Env{Vals: true}}
 	var reorg string
 	jobsSeen := 0
@@ -833,6 +943,7 @@ func runHist(t *testing.T, h *Hist, level zerolog.Level) (term string, nontrivia
 		ct.Genesis = time.Unix(h.GenesisUnix, 0)
 		ct.SlotDuration = time.Duration(h.SlotSecs) * time.Second
 		c := &ctl{h: h, w: w, ct: ct, level: level}
+		w.ct = ct
 		if h.Hook {
 			c.hook()
 		}
@@ -841,6 +952,12 @@ func runHist(t *testing.T, h *Hist, level zerolog.Level) (term string, nontrivia
 				t.Fatalf("op %d (%s) before the controller exists", i, op.K)
 			}
 			c.apply(t, op)
+			clocks = append(clocks, N(uint64(ct.CurrentSlot())))
+			if c.cs != nil {
+				setups = append(setups, List(c.cs.drain()))
+			} else {
+				setups = append(setups, "[]")
+			}
 			if c.svc == nil {
 				snaps = append(snaps, "None")
 				continue
@@ -889,6 +1006,14 @@ func runHist(t *testing.T, h *Hist, level zerolog.Level) (term string, nontrivia
 	defer w.mu.Unlock()
 	term = App("BHist", cfg, init, List(ops), List(snaps), List(w.attLog), List(w.propLog), reorg, Bool(h.WF))
 	obs = map[string]any{"att_log": w.attLog, "prop_log": w.propLog, "reorg": reorg}
+	if slow {
+		dops := make([]string, 0, len(h.Ops))
+		for _, op := range h.Ops {
+			dops = append(dops, dopTerm(op))
+		}
+		term = App("BHistD", cfg, init, List(dops), List(snaps), List(clocks), List(setups), List(w.attLog), List(w.propLog), reorg)
+		obs["clocks"], obs["setups"] = clocks, setups
+	}
 	return term, jobsSeen > 0, obs
 }
 
